@@ -532,12 +532,12 @@ func caseLoadReject(t *testing.T, tp *simrt.Tape, c *Ctx) (res Result) {
 }
 
 func init() {
-	register(&PropSpec{ID: "C09", Engine: "load", Fn: caseRoundTrip, Quick: 60000, Thorough: 400000, Level: "exploration",
+	register(&PropSpec{ID: "C09", Engine: "load", Fn: caseRoundTrip, Quick: 800000, Thorough: 2000000, Level: "exploration",
 		Rule:   "a case = by-construction warrior (legal in the dialect, fields across [0,M) incl. M/2, M/2+1) printed in the canonical load-file layout with drawn field spellings (unsigned, signed, congruent beyond M) and layout-only perturbations (case, blanks/tabs, CR-LF, comment and blank lines, metadata, trailing comments, missing final newline), delivered through the simulated reader (chunking, zero-length reads, EOF style, two-chunk boundary); read by ParseLoadFile (plain and drawn delivery; thorough: every two-chunk boundary x both EOF styles) and by CompileWarrior under the seeded scheduler; non-trivial = every case; distinct = distinct (text, configuration)",
 		Real:   []string{"load-file reader", "lexer/expander/parser/compiler (assembler side, under the scheduler)"},
 		Stubs:  []string{"io.Reader (simulated stream)", "goroutine scheduling choice", "map iteration order", "time (tick clock)"},
 		Assume: []string{"canonical layout printer and field spelling in ref/canon.go; the dialect's legal instruction set from ref/legal88.go"}})
-	register(&PropSpec{ID: "C10", Engine: "load", Fn: caseLoadReject, Quick: 200000, Thorough: 3000000, Level: "fault_enumeration",
+	register(&PropSpec{ID: "C10", Engine: "load", Fn: caseLoadReject, Quick: 3000000, Thorough: 20000000, Level: "fault_enumeration",
 		Rule:   "a case = canonical (or layout-perturbed) load file + 0..3 field/line-level corruptions + optional byte-level corruption + optional truncation / read error, both dialects, core sizes {3,5,16,17,80,256,800,8000,8192,55440,2^20}; read plainly and through the drawn reader behaviour; additionally truncation points of the text are enumerated (thorough: every byte; quick: every len/6-th byte); oracles: no panic, bounded ticks, error xor well-formed warrior, conservation of lines against the independent classifier; non-trivial = delivered text non-empty; distinct = distinct (delivered bytes, configuration, error position)",
 		Real:   []string{"load-file reader (parseLoadFile88 / parseLoadFile94, asm.go decoders)"},
 		Stubs:  []string{"io.Reader (simulated stream)", "time (tick clock)"},
